@@ -155,6 +155,74 @@ func c09Log(sub int64, n int) (msg string, l *gen.MemLog, rfc *gen.Rfc6962) {
 	return "", l, rfc
 }
 
+// c09AliasLog appends the n records regenerated from sub one at a time through StoredHashes
+// with a reader whose results alias its own memory (gen.AliasStore), and after every append
+// re-checks the reader's memory (StoredHashes/TreeHash may only read it), the WHOLE store against
+// the independent RFC 6962 hashes laid out by the documented order (record i contributes the
+// subtrees (lv, i>>lv) for lv = 0..trailing ones of i), and TreeHash(m) for every m (for
+// logs beyond 130 records: the last 16 sizes after each append and every m at the end).
+func c09AliasLog(sub int64, n int) string {
+	records := gen.LogRecords(rand.New(rand.NewSource(sub)), n)
+	rfc := gen.NewRfc6962(records)
+	store := gen.NewAliasStore()
+	var want []tlog.Hash
+	trees := func(from, to int) string {
+		for m := from; m <= to; m++ {
+			var th tlog.Hash
+			var err error
+			if p, pm := hx.Guard(func() { th, err = tlog.TreeHash(int64(m), store) }); p {
+				return fmt.Sprintf("TreeHash(%d) on the aliasing store panics: %s", m, pm)
+			}
+			if err != nil {
+				return fmt.Sprintf("TreeHash(%d) on the aliasing store: %v", m, err)
+			}
+			if w := rfc.Root(m); th != w {
+				return fmt.Sprintf("after %d appends through StoredHashes, TreeHash(%d) on the aliasing store = %v, RFC 6962 MTH of the first %d records is %v", len(want), m, th, m, w)
+			}
+			if msg := store.Tampered(); msg != "" {
+				return fmt.Sprintf("TreeHash(%d): %s", m, msg)
+			}
+		}
+		return ""
+	}
+	for i, d := range records {
+		var hs []tlog.Hash
+		var err error
+		if p, pm := hx.Guard(func() { hs, err = tlog.StoredHashes(int64(i), d, store) }); p {
+			return fmt.Sprintf("StoredHashes(%d) on the aliasing store panics: %s", i, pm)
+		}
+		if err != nil {
+			return fmt.Sprintf("StoredHashes(%d) on the aliasing store: %v", i, err)
+		}
+		if msg := store.Tampered(); msg != "" {
+			return fmt.Sprintf("StoredHashes(%d, data, reader) wrote to memory owned by the reader: %s", i, msg)
+		}
+		for lv := 0; ; lv++ {
+			want = append(want, rfc.MTH((i>>uint(lv))<<uint(lv), i+1))
+			if (i>>uint(lv))&1 == 0 {
+				break
+			}
+		}
+		store.Add(hs)
+		if len(store.Hashes) != len(want) {
+			return fmt.Sprintf("after record %d the store has %d hashes, the documented layout has %d", i, len(store.Hashes), len(want))
+		}
+		for j := range want {
+			if store.Hashes[j] != want[j] {
+				return fmt.Sprintf("after record %d stored position %d is %v, the RFC 6962 hash of its subtree is %v", i, j, store.Hashes[j], want[j])
+			}
+		}
+		from := 0
+		if i >= 130 {
+			from = i + 1 - 16
+		}
+		if msg := trees(from, i+1); msg != "" {
+			return msg
+		}
+	}
+	return trees(0, n)
+}
+
 func c09Tree(n int64, h tlog.Hash) string {
 	text := tlog.FormatTree(tlog.Tree{N: n, Hash: h})
 	t, err := tlog.ParseTree(text)
@@ -445,6 +513,14 @@ func runC09(c *hx.Ctx) {
 	}
 	index(-1, 5)
 	index(-3, 0)
+
+	// ---- logs written through a reader whose results alias its own storage (oracle only)
+	for _, n := range []int{131, 259 + r.Intn(8)*8, 515 + r.Intn(4)*8, 1027 + r.Intn(2)*8, 3 + 8*r.Intn(12), r.Intn(300)} {
+		sub := r.Int63()
+		msg := c09AliasLog(sub, n)
+		c.Check("aliasing-reader: StoredHashes/TreeHash only read the reader's result; store and every prefix tree hash stay RFC 6962", msg == "", "", c09In{Op: "aliaslog", Sub: sub, N: int64(n)}, msg)
+		c.Count("aliasing-reader-log")
+	}
 
 	// ---- logs
 	var sizes []int
@@ -748,6 +824,8 @@ func replayC09(raw json.RawMessage) (bool, string) {
 		msg = c09Count(in.N)
 	case "log":
 		msg, _, _ = c09Log(in.Sub, int(in.N))
+	case "aliaslog":
+		msg = c09AliasLog(in.Sub, int(in.N))
 	case "tree":
 		msg = c09Tree(in.N, h1)
 	case "treetext":
